@@ -1238,6 +1238,64 @@ func syncRoles(after ast.Expr, pidx map[string]int, funcs map[string]*ast.FuncDe
 	return
 }
 
+// ---------------------------------------------------------------- who may touch the escrow from outside the bridge
+
+// escrowGuards: is the EVM module account on the bank's blocked list (app wiring), and do x/tokenfactory's burn / mint
+// refuse blocked accounts BEFORE moving coins?
+func escrowGuards(repo string) string {
+	blockedEvm := false
+	for _, fl := range ParseDir(repo + "/app") {
+		ast.Inspect(fl.F, func(n ast.Node) bool {
+			vs, ok := n.(*ast.ValueSpec)
+			if !ok {
+				return true
+			}
+			for i, nm := range vs.Names {
+				if nm.Name != "blockAccAddrs" || i >= len(vs.Values) {
+					continue
+				}
+				if cl, ok := vs.Values[i].(*ast.CompositeLit); ok {
+					for _, el := range cl.Elts {
+						if Nospace(el) == "evm.ModuleName" {
+							blockedEvm = true
+						}
+					}
+				}
+			}
+			return true
+		})
+	}
+	tf := Funcs(ParseDir(repo + "/x/tokenfactory/keeper"))
+	checks := func(name string) bool {
+		fd := tf[name]
+		if fd == nil || fd.Body == nil {
+			return false
+		}
+		var guardPos, movePos token.Pos
+		ast.Inspect(fd.Body, func(n ast.Node) bool {
+			switch s := n.(type) {
+			case *ast.IfStmt:
+				if strings.Contains(Nospace(s.Cond), ".BlockedAddr(") && !strings.HasPrefix(Nospace(s.Cond), "!") && returnsError(s.Body) && guardPos == 0 {
+					guardPos = s.Pos()
+				}
+			case *ast.CallExpr:
+				ch := chain(s.Fun)
+				last := ch[len(ch)-1]
+				// the movement that touches the named account
+				if (name == "burn" && last == "SendCoinsFromAccountToModule") || (name == "mint" && last == "SendCoinsFromModuleToAccount") {
+					if movePos == 0 {
+						movePos = s.Pos()
+					}
+				}
+			}
+			return true
+		})
+		return guardPos != 0 && movePos != 0 && guardPos < movePos
+	}
+	return fmt.Sprintf("{| eg_evm_module_blocked := %s; eg_tf_burn_checks_blocked := %s; eg_tf_mint_checks_blocked := %s |}",
+		CoqBool(blockedEvm), CoqBool(checks("burn")), CoqBool(checks("mint")))
+}
+
 func main() {
 	repo := Repo()
 	Header(repo)
@@ -1264,6 +1322,8 @@ func main() {
 	fmt.Println("(** guards of the two CreateFunToken paths, in source order *)")
 	fmt.Printf("Definition current_create_coin : list cguard := %s.\n", createGuards(kf["createFunTokenFromCoin"]))
 	fmt.Printf("Definition current_create_erc20 : list cguard := %s.\n\n", createGuards(kf["createFunTokenFromERC20"]))
+	fmt.Println("(** outside the bridge: the EVM module account is bank-blocked, and the tokenfactory admin paths honour that *)")
+	fmt.Printf("Definition current_escrow_guards : escrow_guards :=\n  %s.\n\n", escrowGuards(repo))
 	fmt.Println("(** NibiruBankKeeper: accounts re-synced into the StateDB after each wrapped bank method *)")
 	fmt.Printf("Definition current_bank_sync : bank_sync :=\n  %s.\n", bankSync(kp, kf))
 }
